@@ -24,7 +24,7 @@ func TestVerifEnumC11Endpoints(t *testing.T) {
 	log.SetOutput(io.Discard)
 	r := en.New()
 	defer r.Done()
-	r.Begin("endpoint-equivalence-sizes", "client polls (version line + JSON with a padded offer) of exactly n bytes for n in {40, 64, 100, every 97th in [1000, 100000], 74950..75050 (where the base64url form reaches 100 000 bytes), 99950..100000} x NAT {unknown, unrestricted, invalid} through POST /client and through GET /amp/client/<path> on a broker without proxies: same status class and, de-armored, the same response body")
+	r.Begin("endpoint-equivalence-sizes", "client polls (version line + JSON with a padded offer) of exactly n bytes for n in {40, 64, 100, every 97th in [1000, 100000], 74950..75050 (where the base64url form reaches 100 000 bytes), 99950..100000} x NAT {unknown, unrestricted, invalid} through POST /client and through GET /amp/client/<path> on a broker without proxies: same status class and, de-armored, the same response body; plus 14 small polls that differ in content (listed / unlisted / malformed fingerprint, version, missing or null members, legacy body)")
 	var sizes []int
 	sizes = append(sizes, 40, 64, 100)
 	for n := 1000; n <= 100000; n += 97 {
@@ -39,6 +39,30 @@ func TestVerifEnumC11Endpoints(t *testing.T) {
 	}
 	ctx := NewBrokerContext(log.New(io.Discard, "", 0))
 	ipc := &IPC{ctx}
+	// polls that differ in content rather than size: the AMP endpoint must agree with the POST endpoint on each
+	contents := []struct{ name, poll string }{
+		{"plain", "1.0\n{\"offer\":\"o\",\"nat\":\"unknown\"}"},
+		{"default-fingerprint-spelled-out", "1.0\n{\"offer\":\"o\",\"nat\":\"unknown\",\"fingerprint\":\"2B280B23E1107BB62ABFC40DDCC8824814F80A72\"}"},
+		{"fingerprint-of-an-unlisted-bridge", "1.0\n{\"offer\":\"o\",\"nat\":\"unknown\",\"fingerprint\":\"0123456789ABCDEF0123456789ABCDEF01234567\"}"},
+		{"malformed-fingerprint", "1.0\n{\"offer\":\"o\",\"nat\":\"unknown\",\"fingerprint\":\"zz\"}"},
+		{"short-fingerprint", "1.0\n{\"offer\":\"o\",\"nat\":\"unknown\",\"fingerprint\":\"2B280B23\"}"},
+		{"unknown-version", "2.0\n{\"offer\":\"o\",\"nat\":\"unknown\"}"},
+		{"no-offer", "1.0\n{\"nat\":\"unknown\"}"},
+		{"null-body", "1.0\nnull"},
+		{"garbage-body", "1.0\n{\"offer\":"},
+		{"empty", ""},
+		{"version-line-only", "1.0\n"},
+		{"legacy-body", "{\"type\":\"offer\",\"sdp\":\"x\"}"},
+		{"unknown-member", "1.0\n{\"offer\":\"o\",\"nat\":\"unknown\",\"extra\":1}"},
+		{"restricted-nat", "1.0\n{\"offer\":\"o\",\"nat\":\"restricted\"}"},
+	}
+	for _, c := range contents {
+		if !r.Shard0() {
+			break
+		}
+		r.Case("eqc|"+c.name, true)
+		compareEndpoints(r, ipc, []byte(c.poll), map[string]interface{}{"poll": c.name, "poll_text": c.poll})
+	}
 	for _, n := range sizes {
 		for _, nat := range []string{"unknown", "unrestricted", "bogus"} {
 			if !r.Mine() {
@@ -52,43 +76,47 @@ func TestVerifEnumC11Endpoints(t *testing.T) {
 			}
 			poll := []byte(head + strings.Repeat("o", pad) + tail)
 			r.Case(fmt.Sprintf("eq|%d|%s", n, nat), true)
-			// POST
-			rec1 := httptest.NewRecorder()
-			req1, _ := http.NewRequest("POST", "http://broker/client", bytes.NewReader(poll))
-			var p1, p2 bool
-			var v1, v2, st1, st2 string
-			p1, v1, st1 = en.Try(func() { clientOffers(ipc, rec1, req1) })
-			// AMP
-			rec2 := httptest.NewRecorder()
-			req2, _ := http.NewRequest("GET", "http://broker/amp/client/"+amp.EncodePath(poll), nil)
-			p2, v2, st2 = en.Try(func() { ampClientOffers(ipc, rec2, req2) })
-			in := map[string]interface{}{"poll_bytes": n, "nat": nat}
-			if p1 || p2 {
-				r.Fail("endpoints:panic", "a handler panicked: "+v1+v2+" "+st1+st2, in)
-				continue
-			}
-			post := rec1.Body.Bytes()
-			var ampBody []byte
-			var derr error
-			if rec2.Code == 200 {
-				dec, e := amp.NewArmorDecoder(bytes.NewReader(rec2.Body.Bytes()))
-				if e != nil {
-					derr = e
-				} else {
-					ampBody, derr = io.ReadAll(dec)
-				}
-			}
-			switch {
-			case rec1.Code == 200 && (rec2.Code != 200 || derr != nil):
-				r.Fail("endpoints:amp-fails-where-post-answers", fmt.Sprintf("POST answered 200 %q, AMP status %d (de-armoring error %v)", show200(post), rec2.Code, derr), in)
-			case rec1.Code == 200 && !bytes.Equal(post, ampBody):
-				r.Fail("endpoints:different-response", fmt.Sprintf("POST answered %q, AMP (de-armored) %q", show200(post), show200(ampBody)), in)
-			case rec1.Code != 200 && rec2.Code == 200 && derr == nil && !bytes.Contains(ampBody, []byte("\"error\"")):
-				// POST refuses (e.g. invalid NAT -> 400): the AMP endpoint, which cannot signal HTTP errors through a
-				// cache, must at least not report success
-				r.Fail("endpoints:amp-answers-where-post-refuses", fmt.Sprintf("POST status %d, AMP answered %q", rec1.Code, show200(ampBody)), in)
-			}
+			compareEndpoints(r, ipc, poll, map[string]interface{}{"poll_bytes": n, "nat": nat})
 		}
+	}
+}
+
+// compareEndpoints sends one poll through POST /client and through GET /amp/client/<path>.
+func compareEndpoints(r *en.R, ipc *IPC, poll []byte, in map[string]interface{}) {
+	// POST
+	rec1 := httptest.NewRecorder()
+	req1, _ := http.NewRequest("POST", "http://broker/client", bytes.NewReader(poll))
+	var p1, p2 bool
+	var v1, v2, st1, st2 string
+	p1, v1, st1 = en.Try(func() { clientOffers(ipc, rec1, req1) })
+	// AMP
+	rec2 := httptest.NewRecorder()
+	req2, _ := http.NewRequest("GET", "http://broker/amp/client/"+amp.EncodePath(poll), nil)
+	p2, v2, st2 = en.Try(func() { ampClientOffers(ipc, rec2, req2) })
+	if p1 || p2 {
+		r.Fail("endpoints:panic", "a handler panicked: "+v1+v2+" "+st1+st2, in)
+		return
+	}
+	post := rec1.Body.Bytes()
+	var ampBody []byte
+	var derr error
+	if rec2.Code == 200 {
+		dec, e := amp.NewArmorDecoder(bytes.NewReader(rec2.Body.Bytes()))
+		if e != nil {
+			derr = e
+		} else {
+			ampBody, derr = io.ReadAll(dec)
+		}
+	}
+	switch {
+	case rec1.Code == 200 && (rec2.Code != 200 || derr != nil):
+		r.Fail("endpoints:amp-fails-where-post-answers", fmt.Sprintf("POST answered 200 %q, AMP status %d (de-armoring error %v)", show200(post), rec2.Code, derr), in)
+	case rec1.Code == 200 && !bytes.Equal(post, ampBody):
+		r.Fail("endpoints:different-response", fmt.Sprintf("POST answered %q, AMP (de-armored) %q", show200(post), show200(ampBody)), in)
+	case rec1.Code != 200 && rec2.Code == 200 && derr == nil && !bytes.Contains(ampBody, []byte("\"error\"")):
+		// POST refuses (e.g. invalid NAT -> 400): the AMP endpoint, which cannot signal HTTP errors through a
+		// cache, must at least not report success
+		r.Fail("endpoints:amp-answers-where-post-refuses", fmt.Sprintf("POST status %d, AMP answered %q", rec1.Code, show200(ampBody)), in)
 	}
 }
 
